@@ -229,6 +229,9 @@ func registerTimeIntrinsics(e *Engine) {
 				ch.bufvc = append(ch.bufvc, nil)
 			}
 		})
+		if r.cfg.Params["timersNeverFire"] == 1 {
+			ts.ev.stopped = true
+		}
 		r.timers()[cell] = ts
 		return cell
 	}
